@@ -1,8 +1,14 @@
 from excel2pycl.src.cell import Cell
+from excel2pycl.src.exceptions import E2PyclParserException
 from excel2pycl.src.tokens import EntryPointToken
 
 
 class AstBuilder:
     @classmethod
     def parse(cls, expression: list, in_cell: Cell):
-        return EntryPointToken.get(expression, in_cell)[0]
+        token, unparsed_tokens = EntryPointToken.get(expression, in_cell)
+        if token is None or unparsed_tokens:
+            # a formula is translated as a whole or not at all
+            raise E2PyclParserException(f'Formula has an incorrect structure in {in_cell}', unparsed_tokens)
+
+        return token
